@@ -207,8 +207,8 @@ int main(int argc, char** argv) {
         for (int r = 0; r < n && stuck < 10; r++) {
             Exec E; Sched S; S.stall_limit = 20000; S.log_schedule = true;
             TR.begin_exec(); setup(E, S, tso); ++paths;
-            static const int dens[4] = {1, 2, 6, 20};
-            int rc = S.run_random(seed0 + r, 3000000, dens[r % 4]); steps += S.steps; drains += S.drains; if (rc != RC_OK) ++stuck;
+            static const int dens[8] = {1, 2, 6, 20, -1, -2, -3, -5};
+            int rc = S.run_random(seed0 + r, 3000000, dens[r % 8]); steps += S.steps; drains += S.drains; if (rc != RC_OK) ++stuck;
             teardown(E, S, rc);
         }
     }
